@@ -593,7 +593,15 @@ pub fn random_state(r: &mut Rng, m128: bool, source: bool) -> MState {
         _ => 0x4002 + r.below(0xBFFC) as u16,
     };
     s.i = r.u8();
-    s.r = r.u8();
+    s.r = match r.below(10) {
+        0 => 0x00,
+        1 => 0x01,
+        2 => 0x80,
+        3 => 0x81,
+        4 => 0x7F,
+        5 => 0xFF,
+        _ => r.u8(),
+    };
     s.iff2 = r.bool();
     s.iff1 = if r.chance(1, 6) { !s.iff2 } else { s.iff2 };
     s.im = r.below(3) as u8;
